@@ -88,7 +88,7 @@ PROPS = {
     "C20": {
         "rule": "real stack_has_pointer_to_mapping on stacks of length 0 … 64 with words at / next to both ends of the principal mapping at all "
                 "alignments and offsets; [live part: see DESIGN]. Non-trivial = at least two scanned words; distinct = distinct (offset mod 8, #words, hit pattern).",
-        "expected_tags": ["scan.true", "scan.false", "word.eq.high", "word.eq.low", "len<8"],
+        "expected_tags": ["scan.true", "scan.false", "word.eq.high", "word.eq.low", "len<8", "crash.references", "crash.noreference"],
         "trusted_base": [],
         "assumptions": [],
         "explanation": "C20 theorems: the scan is true iff an aligned slot at/above the SP offset holds an address in the half-open system range; the inclusion "
